@@ -79,6 +79,7 @@ type Verifier struct {
 	curCallee   *ssa.Function // static callee whose contract is being applied
 	forks       []fork
 	siteMap     map[*ssa.Function]map[ssa.Instruction][]*SiteAssert
+	curFnValue  *Value // function value of the dynamic call whose contract is being applied (`fnvalue` in contracts)
 	noFork      int
 	lockSnap    map[string]*State
 	firstLockSnap *State
@@ -523,6 +524,12 @@ func (v *Verifier) cutLoop(fn *ssa.Function, an *fnAnalysis, li *loopInfo, s *St
 			}
 			if tfc := v.contracts.forFunc(v.top); tfc != nil && hasModifies(tfc) && !modifiesNamesGhost(tfc, g) {
 				continue // the function's frame keeps it (checked on the back edge)
+			}
+			if v.contracts.ghostQuiet(g, scope) && !v.loopMayModifyGhost(li, g) {
+				continue // a quiet ghost changes only through contracts that name it; none is reachable from this loop
+			}
+			if os.Getenv("GOVC_DEBUG") == "loopghost" {
+				fmt.Fprintf(os.Stderr, "DEBUG loopghost %s loop %d of %s havocs %s\n", funcRef(v.top), li.ordinal, funcRef(fn), g)
 			}
 			s.ghost[g] = freshValue("loop!ghost!"+g, s.ghost[g].T)
 		}
@@ -1954,4 +1961,67 @@ func countStores(a ssa.Value, seen map[ssa.Value]bool) int {
 		}
 	}
 	return n
+}
+
+
+// loopMayModifyGhost: some call in the loop body can change ghost global g through a contract that names it (directly,
+// or in a function of the module reached from the call).
+func (v *Verifier) loopMayModifyGhost(li *loopInfo, g string) bool {
+	for b := range li.body {
+		for _, ins := range b.Instrs {
+			ci, ok := ins.(ssa.CallInstruction)
+			if !ok {
+				continue
+			}
+			if _, isGo := ins.(*ssa.Go); isGo {
+				continue // ghost state is this goroutine's own record
+			}
+			c := ci.Common()
+			if _, isB := c.Value.(*ssa.Builtin); isB {
+				continue
+			}
+			if c.IsInvoke() {
+				key := typeName(c.Value.Type()) + "." + c.Method.Name()
+				if fc := v.contracts.get(key); fc != nil && modifiesNamesGhost(fc, g) {
+					return true
+				}
+				continue
+			}
+			callee := c.StaticCallee()
+			if callee == nil {
+				if mc, ok := c.Value.(*ssa.MakeClosure); ok {
+					callee = mc.Fn.(*ssa.Function)
+				}
+			}
+			if callee == nil {
+				// unknown func value: closures of this function may be the target
+				for _, anon := range v.top.AnonFuncs {
+					if sum := v.summaryOf(anon); sum.ghosts[g] {
+						return true
+					}
+				}
+				continue
+			}
+			if fc := v.contracts.forFunc(callee); fc != nil && hasModifies(fc) {
+				if modifiesNamesGhost(fc, g) {
+					return true
+				}
+				continue
+			}
+			if callee.Blocks != nil {
+				if sum := v.summaryOf(callee); sum.ghosts[g] {
+					return true
+				}
+			}
+			// closures handed to the callee may run
+			for _, a := range c.Args {
+				if mc, ok := a.(*ssa.MakeClosure); ok {
+					if sum := v.summaryOf(mc.Fn.(*ssa.Function)); sum.ghosts[g] {
+						return true
+					}
+				}
+			}
+		}
+	}
+	return false
 }
